@@ -6,7 +6,7 @@ REPO=${MW_REPO:-/repo}
 TAG=proto${1:-}
 P=$V/target/$TAG/proj
 mkdir -p $P/src
-cp $V/protomon/src/rt.rs $V/protomon/src/main.rs $P/src/
+for f in rt.rs main.rs; do cmp -s $V/protomon/src/$f $P/src/$f || cp $V/protomon/src/$f $P/src/$f; done
 python3 $V/protomon/gen.py driver $REPO $V/protomon/baseline/shared.json $P/src/generated.rs.new
 if ! cmp -s $P/src/generated.rs.new $P/src/generated.rs; then mv $P/src/generated.rs.new $P/src/generated.rs; else rm $P/src/generated.rs.new; fi
 sed -e "s#@REPO@#$REPO#g" -e "s#@SRC@#$P/src#g" $V/protomon/Cargo.toml.in > $P/Cargo.toml.new
